@@ -82,6 +82,13 @@ Proof. vm_compute. repeat split. Qed.
 Theorem c14_refusals_can_propagate : gen_noexcept_refusing = [].
 Proof. reflexivity. Qed.
 
+(* The library swallows no exception: every catch clause in it ends by throwing again (table regenerated from the source; at the
+   time of writing the library has no catch clause at all), so a refusal raised below a catch clause still reaches the caller. *)
+Theorem c14_library_swallows_no_exception :
+  forallb (fun r => snd r) GenAccess.gen_catch_clauses = true.
+Proof. vm_compute. reflexivity. Qed.
+
+Print Assumptions c14_library_swallows_no_exception.
 Print Assumptions c14_refusals_can_propagate.
 Print Assumptions c14_every_sequence_guards_its_index.
 Print Assumptions c14_no_unchecked_dereference.
